@@ -246,7 +246,7 @@ pub fn generate_with(
             g.iter().flat_map(|b| b.steps.iter().map(|s| (Source::new(s.clone()), true))).collect()
         };
         let fbg = bg_steps(&gf.background);
-        let mut mk_sc = |gs: &gherkin::Scenario, _spec: &ScSpec, ri: Option<usize>, rbg: &[(Source<gherkin::Step>, bool)], r: &mut Rng, tok: &mut u64| {
+        let mk_sc = |gs: &gherkin::Scenario, _spec: &ScSpec, ri: Option<usize>, rbg: &[(Source<gherkin::Step>, bool)], r: &mut Rng, tok: &mut u64| {
             let mut steps = fbg.clone();
             steps.extend(rbg.iter().cloned());
             steps.extend(gs.steps.iter().map(|s| (Source::new(s.clone()), false)));
@@ -302,7 +302,7 @@ pub fn generate_with(
 
     let mut items: Vec<Item> = Vec::new();
     let mut meta: Vec<Meta> = Vec::new();
-    let mut push = |items: &mut Vec<Item>, meta: &mut Vec<Meta>, ev: Result<Cucumber<TW>, cucumber::parser::Error>, kind: Kind, f, rr, sc| {
+    let push = |items: &mut Vec<Item>, meta: &mut Vec<Meta>, ev: Result<Cucumber<TW>, cucumber::parser::Error>, kind: Kind, f, rr, sc| {
         let token = items.len() as u64;
         items.push(ev.map(|e| stamp(Event::new(e), token)));
         meta.push(Meta { token, kind, f, r: rr, sc });
@@ -341,9 +341,7 @@ pub fn generate_with(
                 push(&mut items, &mut meta, Err(exec::parse_error(n_items)), Kind::ParseErr, None, None, None);
             }
         }
-        errs_left = 0;
         push(&mut items, &mut meta, Ok(pf.clone()), Kind::ParsingFinished, None, None, None);
-        pf_done = true;
         for fi in 0..feats.len() {
             if !f_used[fi] {
                 continue;
@@ -562,7 +560,7 @@ pub const TRICKY: &[&str] = &[
 /// Appends tricky suffixes to names and step texts. `cdata` additionally plants
 /// the CDATA terminator `]]>` somewhere (known to break the JUnit dependency).
 pub fn decorate(feats: &mut [FeatSpec], r: &mut Rng, cdata: bool) {
-    let mut sfx = |r: &mut Rng| -> String {
+    let sfx = |r: &mut Rng| -> String {
         if r.chance(1, 2) { format!(" {}", r.pick(TRICKY)) } else { String::new() }
     };
     for f in feats.iter_mut() {
